@@ -82,6 +82,7 @@ class Served(object):
     """a running daemon + its request loop thread"""
     def __init__(self, servertype="thread", unixsocket=None, host="127.0.0.1", daemon_kwargs=None):
         from Pyro5 import config
+        config.SOCK_NODELAY = True      # avoid Nagle/delayed-ack stalls of ~40 ms on small messages (speed only)
         self.servertype = servertype
         old = config.SERVERTYPE
         config.SERVERTYPE = servertype
